@@ -122,6 +122,14 @@ def compare_records(EA, EB, cidmap=None, by_name=False, ignore_msgs=False, tally
     return 'COND', conds
 
 
+def guarded_stats(E):
+    "the statistics Guarded.report() prints, right after E's count (None for other arithmetics)"
+    import droop.values.guarded as gm
+    if E.V is gm.Guarded:
+        return (gm.Guarded.maxDiff, gm.Guarded.minDiff)
+    return None
+
+
 def winners_by_name(E):
     return sorted(c.name for c in E.C if c.state == 'elected')
 
@@ -218,7 +226,16 @@ def run_job(spec):
         U.pre(e)
         if mode == 'split':
             for s_, m_ in zip(extra_vars['s'], U.ms):
-                e.assume(z3.And(s_ >= 0, s_ <= m_))
+                if spec.get('nozero'):
+                    # every line and every part really exists in the file: the comparison statistics are exact
+                    e.assume(z3.And(m_ >= 2, s_ >= 1, s_ <= m_ - 1))
+                else:
+                    e.assume(z3.And(s_ >= 0, s_ <= m_))
+        if mode == 'withdraw':
+            # both elections must be valid: enough ballots remain once candidate w is gone
+            w = str(spec['w'])
+            keep = [U.ms[i] for i in U.kept if any(x != w for tok in U.lines[i].split() for x in tok.split('='))]
+            e.assume(z3.Sum(keep + [z3.IntVal(0)]) >= len(U.eligible) - 1)
         if mode == 'tie2':
             for t in extra_vars['u']:
                 e.assume(z3.And(t >= 1, t <= U.n))
@@ -227,8 +244,19 @@ def run_job(spec):
     def reach(k, n=1):
         res['reach'][k] = res['reach'].get(k, 0) + n
 
+    class ZeroLineArtefact(Exception):
+        pass
+
     def count(E):
-        E.count()
+        try:
+            E.count()
+        except Exception as ex:     # noqa
+            if isinstance(ex, core.HarnessError):
+                raise
+            # an exception inside a count: C01's subject, not this check's.  It may also be an artefact of a ballot line
+            # with multiplicity 0 (not expressible in a BLT file); either way the pair is not compared on this path
+            res['reach']['count-raised:%s' % type(ex).__name__] = res['reach'].get('count-raised:%s' % type(ex).__name__, 0) + 1
+            raise ZeroLineArtefact()
         return E
 
     path_pairs = []
@@ -237,16 +265,17 @@ def run_job(spec):
     def report_violation(e, key, cond, pairs):
         "pairs: list of (descA, descB, cmp kwargs) to replay"
         path_pairs.extend(pairs)
-        if seen.get(key, 0) >= 2:
-            return
         if cond is not None:
-            if not e.check(cond):
+            cond = z3.simplify(cond)
+            if z3.is_false(cond) or not e.check(cond):
                 return
             m = e.solver.model()
         else:
             m = e.model()
-        seen[key] = seen.get(key, 0) + 1
         path_flag[0] = True
+        if seen.get(key, 0) >= 2:
+            return
+        seen[key] = seen.get(key, 0) + 1
         items = []
         for (dA, dB, kw) in pairs:
             items.append(dict(textA=concrete_text(dA, m), optionsA=dA['options'], textB=concrete_text(dB, m), optionsB=dB['options'], kw=kw))
@@ -271,10 +300,16 @@ def run_job(spec):
                 linesB = [U.lines[i] for i in order] + list(U.lines)
                 multsB = [U.ms[i] - extra_vars['s'][i] for i in order] + list(extra_vars['s'])
                 dB = dict(base, lines=linesB, mults=multsB)
+                statsA = guarded_stats(EA)
                 EB = count(build_symbolic(dB))
+                statsB = guarded_stats(EB)
                 pairs = [(base, dB, dict())]
                 kind, x = compare_records(EA, EB)
                 reach('pair-compared')
+                if statsA is not None and spec.get('nozero'):
+                    # the report prints the comparison statistics of guarded arithmetic: they are part of the rendering
+                    report_violation(e, 'presentation:arithmetic-report-statistics',
+                                     z3.Or(lz(statsA[0]) != lz(statsB[0]), lz(statsA[1]) != lz(statsB[1])), [(base, dB, dict(stats=True))])
                 if kind == 'STRUCT':
                     report_violation(e, 'presentation:' + x.split(':')[0][:40], None, pairs)
                 else:
@@ -396,6 +431,8 @@ def run_job(spec):
                 report_violation(e, 'quasi-exact:value', z3.Or(*diffs) if diffs else z3.BoolVal(False), [(dA, dB, kw)])
             else:
                 raise core.HarnessError('unknown diff mode %s' % mode)
+        except ZeroLineArtefact:
+            return
         finally:
             signal.setitimer(signal.ITIMER_REAL, 0)
         # differential validation of the engine: this path's own model, counted by the pristine code, must agree
@@ -414,6 +451,15 @@ def run_job(spec):
             res['samples'].append(dict(mode=mode, blt=concrete_text(base, m), options=base['options']))
 
     try:
+        from harness import lemmas
+        optsets = [election_options(spec)]
+        if mode == 'opts':
+            optsets = [dict(spec['optionsA']), dict(spec['optionsB'])]
+        if mode == 'gq':
+            optsets = [dict(election_options(spec), arithmetic='guarded', precision=spec['p'], guard=spec['g']), dict(election_options(spec), arithmetic='rational')]
+        lf = lemmas.check_for([lemmas.effective_options(o) for o in optsets])
+        if lf:
+            raise core.HarnessError('; '.join(lf))
         outcome = eng.explore(body, pre, deadline=t0 + budget)
     except core.HarnessError as ex:
         outcome = 'harness_error'
@@ -505,6 +551,11 @@ def replay_pairs(items, mode):
             ra, rb = _render_all(EA), _render_all(EB)
             for k in ra:
                 a_, b_ = ra[k], rb[k]
+                if not kw.get('stats'):
+                    # the guarded comparison statistics (maxDiff/minDiff lines of the report, 'arithmetic_report' in json) are
+                    # compared by the dedicated zero-free job only
+                    a_ = _re.sub(r'(\\t|\t)(maxDiff|minDiff): *\d+', '', a_)
+                    b_ = _re.sub(r'(\\t|\t)(maxDiff|minDiff): *\d+', '', b_)
                 if mode == 'tie2':
                     # the tie_order entries of the candidate table are the input itself
                     a_ = _re.sub(r'"tie_order": \\d+', '"tie_order": _', a_)
